@@ -11,10 +11,73 @@
 #include "common/sonic_util.h"
 #include "common/vf.h"
 
+#if __has_include(<nlohmann/json.hpp>)
+#include <nlohmann/json.hpp>
+#define VF_HAVE_NLOHMANN 1
+#endif
+#if __has_include(<rapidjson/document.h>)
+#include <rapidjson/document.h>
+#define VF_HAVE_RAPIDJSON 1
+#endif
+
 using jm::JVal;
 using namespace sonic_json;
 
 static std::string g_prop = "C01";
+
+// Oracle self-test: the reference recogniser against two independent parsers, on the sub-language where all three
+// are specified to agree (text is valid UTF-8 and contains no \u surrogate escapes).  A disagreement is a defect of
+// my oracle (or of the generator), reported under its own key so that it can never be mistaken for a library defect.
+static bool valid_utf8(const std::string& s) {
+  size_t i = 0, n = s.size();
+  while (i < n) {
+    unsigned char c = s[i];
+    size_t len = c < 0x80 ? 1 : (c >= 0xc2 && c <= 0xdf) ? 2 : (c >= 0xe0 && c <= 0xef) ? 3 : (c >= 0xf0 && c <= 0xf4) ? 4 : 0;
+    if (!len || i + len > n) return false;
+    for (size_t k = 1; k < len; k++)
+      if (((unsigned char)s[i + k] & 0xc0) != 0x80) return false;
+    if (len == 3) {
+      unsigned cp = ((c & 0x0f) << 12) | (((unsigned char)s[i + 1] & 0x3f) << 6) | ((unsigned char)s[i + 2] & 0x3f);
+      if (cp < 0x800 || (cp >= 0xd800 && cp <= 0xdfff)) return false;
+    }
+    if (len == 4) {
+      unsigned cp = ((c & 0x07) << 18) | (((unsigned char)s[i + 1] & 0x3f) << 12);
+      if (cp < 0x10000 || cp > 0x10ffff) return false;
+    }
+    i += len;
+  }
+  return true;
+}
+static vf::Counter c_self("oracle-selftest:texts-cross-checked"), c_self_acc("oracle-selftest:accepted-by-all"), c_self_rej("oracle-selftest:rejected-by-all");
+static void oracle_selftest(const std::string& text) {
+  // (a NUL byte ends the input for the other two parsers: C-string heritage, outside the common sub-language)
+  if (!valid_utf8(text) || text.find("\\u") != std::string::npos || text.find('\0') != std::string::npos || text.size() > 4000) return;
+  jm::RefResult ref = jm::ref_parse(text);
+  if (!ref.ok && ref.f.cls == jm::Fault::Infinity) return;  // the other parsers store infinity / use their own range rules
+  c_self.add();
+  vf::eval();
+  bool any = false;
+#ifdef VF_HAVE_NLOHMANN
+  {
+    bool ok = nlohmann::json::accept(text.begin(), text.end());
+    any = true;
+    if (ok != ref.ok) vf::violation("harness:oracle-disagreement:nlohmann", std::string("reference ") + (ref.ok ? "accepts" : "rejects") + ", nlohmann " + (ok ? "accepts" : "rejects") + " text=" + vf::printable(text));
+  }
+#endif
+#ifdef VF_HAVE_RAPIDJSON
+  {
+    rapidjson::Document rd;
+    rd.Parse<rapidjson::kParseFullPrecisionFlag>(text.data(), text.size());
+    bool ok = !rd.HasParseError();
+    // RapidJSON applies its own range rule to exponents (it rejects -0e999, whose value is zero): not a grammar verdict
+    if (!ok && rd.GetParseError() == rapidjson::kParseErrorNumberTooBig) ok = ref.ok;
+    any = true;
+    // RapidJSON limits nesting by recursion only; very deep inputs are not fed here
+    if (ok != ref.ok) vf::violation("harness:oracle-disagreement:rapidjson", std::string("reference ") + (ref.ok ? "accepts" : "rejects") + ", RapidJSON " + (ok ? "accepts" : "rejects") + " text=" + vf::printable(text));
+  }
+#endif
+  if (any) { if (ref.ok) c_self_acc.add(); else c_self_rej.add(); }
+}
 
 // exact-size heap copy of the input (no terminator), so that any read past the
 // caller's buffer is an ASan report
@@ -433,6 +496,18 @@ int main(int argc, char** argv) {
                    for (int c = 0; c < 12; c++) one_input(p5 + kAlpha12[c]);
                  }, false});
   }
+  if (g_prop == "C01") {
+    S.push_back({"oracle_selftest", 6000, 300000, [seed](uint64_t i, vf::Rng& r) {
+                   std::string t = doc_text(seed, "selftest_doc", i / 4, 4);
+                   if (t.size() > 3000) return;
+                   if (i % 4) {
+                     int k = (int)r.range(1, 2);
+                     for (int j = 0; j < k; j++) t = jm::mutate(t, r);
+                   }
+                   vf::witness(t);
+                   oracle_selftest(t);
+                 }});
+  }
   // generated valid documents x leading pad 0..63 (every token visits every offset mod 64)
   S.push_back({"valid_doc_x_pad", (uint64_t)(c02 ? 300 : 1500), (uint64_t)(c02 ? 5000 : 60000), [seed](uint64_t i, vf::Rng& r) {
                  std::string t = doc_text(seed, "valid_doc", i);
@@ -486,6 +561,25 @@ int main(int argc, char** argv) {
                      one_input(t);
                    }
                  }});
+    // every BMP code point (and sampled supplementary ones) as a \\uXXXX escape in values and keys
+    S.push_back({"every_u16_escape", 1024, 1024, [](uint64_t i, vf::Rng& r) {
+                   std::string t = "{\"v\":[";
+                   std::string keys;
+                   for (uint32_t k = 0; k < 64; k++) {
+                     uint32_t cu = (uint32_t)i * 64 + k;
+                     char b[32];
+                     if (cu >= 0xd800 && cu <= 0xdfff) {  // surrogates only as valid pairs
+                       uint32_t hi = 0xd800 + (cu & 0x3ff), lo = 0xdc00 + (uint32_t)r.below(1024);
+                       snprintf(b, sizeof b, r.coin() ? "\\u%04x\\u%04X" : "\\u%04X\\u%04x", hi, lo);
+                     } else {
+                       snprintf(b, sizeof b, r.coin() ? "\\u%04x" : "\\u%04X", cu);
+                     }
+                     t += std::string(k ? "," : "") + "\"" + std::string(r.below(3), 'p') + b + std::string(r.below(3), 's') + "\"";
+                     keys += std::string(",\"k") + std::to_string(k) + b + "\":" + std::to_string(k);
+                   }
+                   t += "]" + keys + "}";
+                   one_input(t);
+                 }, false});
     // deep nesting (value tree compared up to depth 1000)
     S.push_back({"deep", 40, 400, [](uint64_t i, vf::Rng& r) {
                    size_t d = vf::args().thorough ? r.range(1, 1400) : r.range(1, 700);
